@@ -160,8 +160,12 @@ func (g GistInfoProof) MarshalJSON() ([]byte, error) {
 // UnmarshalJSON for GistInfoProof
 func (g *GistInfoProof) UnmarshalJSON(data []byte) error {
 	var proof merkletree.Proof
-	if err := json.Unmarshal(data, &proof); err != nil {
+	decoded, err := decodeMTP(data)
+	if err != nil {
 		return err
+	}
+	if decoded != nil {
+		proof = *decoded
 	}
 
 	typeStruct := struct {
